@@ -141,7 +141,16 @@ class BaseFileWriterSession(BaseWriterSession):
             _logger.exception('Failed to parse date.')
             return
 
-        last_modified = time.mktime(last_modified)
+        if not last_modified:
+            # parsedate returns None when the value is not a date
+            _logger.debug('Failed to parse date.')
+            return
+
+        try:
+            last_modified = time.mktime(last_modified)
+        except (ValueError, OverflowError):
+            _logger.debug('Date out of range.')
+            return
 
         os.utime(filename, (time.time(), last_modified))
 
